@@ -321,10 +321,16 @@ def render_fasta(struct, order=None, decoy_prefix="decoy_", with_decoys=True, wi
     return entries
 
 
+_DESCRIPTIONS = ["some description", "", "Beta-(1->3)-glucan export protein OS=Homo sapiens OX=9606", "hypothetical protein",
+                 "A>B transition factor >fragment", "some description", "sp|Q00000|X_Y 5'->3' exonuclease GN=exo PE=1 SV=2"]
+
+
 def write_fasta(path, entries, width=60):
     with open(path, "w") as fh:
         for name, seq in entries:
-            fh.write(f">{name} some description\n")
+            # free-text descriptions as found in real databases, some with the entry marker inside ("(1->3)-glucan")
+            desc = _DESCRIPTIONS[hash_stable(name) % len(_DESCRIPTIONS)]
+            fh.write(f">{name}{' ' + desc if desc else ''}\n")
             for i in range(0, len(seq), width):
                 fh.write(seq[i : i + width] + "\n")
             if not seq:
